@@ -866,7 +866,7 @@ theorem bind_positional_binds_args (st : Store) (outer : Nat) (binds exprs : Lis
   have hd : bindData (.list binds) (.list exprs) = .ok (insertAll [] (List.zip (binds.map V.symName) exprs)) := by
     rw [bindData_seq (binds := binds) (exprs := exprs) rfl rfl, bind_positional binds exprs hp]
     simp [hlen]
-  refine ⟨_, by simp [bind, hd], ?_⟩
+  refine ⟨insertAll [] (List.zip (binds.map V.symName) exprs), by simp [bind, hd], ?_⟩
   intro j h1 h2
   apply get_fresh_hit
   apply dget_insertAll_mem
@@ -884,7 +884,271 @@ theorem bind_rest_binds_list (st : Store) (outer : Nat) (pre : List V) (r : Stri
       get (st ++ [⟨d, some outer⟩]) st.length r = .ok (.list (exprs.drop pre.length)) := by
   have hd := bindData_seq (bm := .list (pre ++ .sym "&" :: .sym r :: tail)) (em := .list exprs) rfl rfl
   rw [bind_rest pre r tail exprs hp, if_neg (Nat.not_lt.mpr hlen)] at hd
-  refine ⟨_, by simp [bind, hd], ?_⟩
+  refine ⟨dset r (.list (exprs.drop pre.length)) (insertAll [] (List.zip (pre.map V.symName) exprs)),
+    by simp [bind, hd], ?_⟩
   exact get_fresh_hit _ _ (dget_dset_same _ _ _)
+
+/-! ### C04 at the level of the API: on stores built through the API no call panics, except a call made
+    through a nil handle (a nil `types.EnvType` as receiver or as `outer`) -/
+
+theorem symbolsF_ok {st : Store} (hwf : WF st) (pre : String) :
+    ∀ fuel id acc, id < st.length → id < fuel → ∃ l, symbolsF st pre fuel id acc = .ok l := by
+  intro fuel
+  induction fuel with
+  | zero => intro id _ _ h; exact absurd h (Nat.not_lt_zero _)
+  | succ f ih =>
+    intro id acc hid hf
+    obtain ⟨sc, hsc⟩ := exists_scope hid
+    cases ho : sc.outer with
+    | none => exact ⟨acc ++ localSyms pre sc.data, by simp [symbolsF, hsc, ho]⟩
+    | some o =>
+      have hlt := hwf id sc o hsc ho
+      obtain ⟨l, hl⟩ := ih o (acc ++ localSyms pre sc.data) (Nat.lt_trans hlt hid)
+        (Nat.lt_of_lt_of_le hlt (Nat.le_of_lt_succ hf))
+      exact ⟨l, by simp [symbolsF, hsc, ho, hl]⟩
+
+theorem find_ok {st : Store} (hwf : WF st) {id : Nat} (hid : id < st.length) (k : String) :
+    ∃ r, find st id k = .ok r := ⟨_, find_eq_chain hwf hid k⟩
+
+theorem set_store {st : Store} (hwf : WF st) {id : Nat} (hid : id < st.length) (k : String) (v : V) :
+    WF (set st id k v).1 ∧ (set st id k v).1.length = st.length ∧ (set st id k v).2 = .ok v := by
+  obtain ⟨sc, hsc⟩ := exists_scope hid
+  rw [set_eq hsc]
+  exact ⟨WF_setData hwf hsc _, List.length_set, rfl⟩
+
+theorem remove_store {st : Store} (hwf : WF st) {id : Nat} (hid : id < st.length) (k : String) :
+    WF (remove st id k).1 ∧ (remove st id k).1.length = st.length ∧ ∀ s, (remove st id k).2 ≠ .panic s := by
+  obtain ⟨sc, hsc⟩ := exists_scope hid
+  cases hg : dget k sc.data with
+  | none => rw [remove_absent hsc hg]; exact ⟨hwf, rfl, fun s => by simp⟩
+  | some v => rw [remove_present hsc hg]; exact ⟨WF_setData hwf hsc _, List.length_set, fun s => by simp⟩
+
+theorem update_store {st : Store} (hwf : WF st) {id : Nat} (hid : id < st.length) (k : String)
+    (f : V → Except String V) :
+    WF (update st id k f).1 ∧ (update st id k f).1.length = st.length ∧ ∀ s, (update st id k f).2 ≠ .panic s := by
+  rw [update_eq hwf hid]
+  cases hf : f (argOf (get st id k)) with
+  | error m => exact ⟨hwf, rfl, fun s => by simp⟩
+  | ok nv =>
+    have := set_store hwf hid k nv
+    exact ⟨this.1, this.2.1, fun s => by rw [this.2.2]; simp⟩
+
+/-- the invariant of a machine driven through `step`: a well-formed store, and every register that is set
+    points to a live scope -/
+def Inv (m : Machine) : Prop := WF m.store ∧ ∀ r id, m.reg r = some id → id < m.store.length
+
+/-- the two panics a caller can provoke: a nil `types.EnvType` as `outer` or as receiver -/
+def nilHandle (s : String) : Prop :=
+  s = "outer.(*Env) on a nil interface" ∨ s = "method call on a nil interface"
+
+theorem inv_init : Inv {} := ⟨WF_nil, fun r id h => by
+  simp [Machine.reg] at h
+  rcases r with _ | _ | _ | _ | _ | r <;> simp at h⟩
+
+theorem reg_of_set {st st' : Store} {regs : List (Option Nat)} {r id r' x : Nat}
+    (h : Machine.reg ⟨st', regs.set r (some id)⟩ r' = some x) : x = id ∨ Machine.reg ⟨st, regs⟩ r' = some x := by
+  simp only [Machine.reg, List.getElem?_set] at h ⊢
+  by_cases hr : r = r'
+  · simp only [hr, if_true] at h
+    by_cases hl : r' < regs.length
+    · simp [hl] at h; exact .inl h.symm
+    · simp [hl] at h
+  · simp only [hr, if_false] at h; exact .inr h
+
+theorem inv_grow {m : Machine} (hi : Inv m) (d : Data) (o : Option Nat)
+    (ho : ∀ x, o = some x → x < m.store.length) (r : Nat) :
+    Inv { store := m.store ++ [⟨d, o⟩], regs := m.regs.set r (some m.store.length) } := by
+  refine ⟨WF_append hi.1 d o ho, fun r' x h => ?_⟩
+  have hlen : (m.store ++ [(⟨d, o⟩ : Scope)]).length = m.store.length + 1 := by simp
+  rw [hlen]
+  rcases reg_of_set (st := m.store) h with e | e
+  · omega
+  · exact Nat.lt_succ_of_lt (hi.2 r' x e)
+
+theorem inv_same {m : Machine} (hi : Inv m) {st' : Store} (hwf : WF st') (hl : st'.length = m.store.length) :
+    Inv { m with store := st' } :=
+  ⟨hwf, fun r x h => by rw [hl]; exact hi.2 r x h⟩
+
+/-- every operation keeps the invariant, and the only panics are the two nil-handle ones -/
+theorem step_inv_and_panics {m : Machine} (hi : Inv m) (op : Op) :
+    Inv (step m op).1 ∧ ∀ s, (step m op).2 = .panic s → nilHandle s := by
+  cases op with
+  | new r =>
+    exact ⟨inv_grow hi [] none (fun x hx => by cases hx) r, fun s h => by simp [step, newEnv] at h⟩
+  | sub r p =>
+    simp only [step]
+    cases hp : m.reg p with
+    | none => exact ⟨hi, fun s h => by injection h with h; exact .inl h.symm⟩
+    | some o =>
+      dsimp only
+      exact ⟨inv_grow hi [] (some o) (fun x hx => by injection hx with hx; subst hx; exact hi.2 p _ hp) r,
+        fun s h => by simp [newSub] at h⟩
+  | bind r p b e =>
+    simp only [step]
+    cases hp : m.reg p with
+    | none => exact ⟨hi, fun s h => by injection h with h; exact .inl h.symm⟩
+    | some o =>
+      dsimp only
+      have hnp := bind_no_panic m.store o b e
+      cases hb : bind m.store o b e with
+      | mk st' res =>
+        cases res with
+        | ok id =>
+          dsimp only
+          obtain ⟨hid, ⟨d, _, hst'⟩, _⟩ := bind_fresh_scope hb
+          subst hid; subst hst'
+          exact ⟨inv_grow hi d (some o) (fun x hx => by injection hx with hx; subst hx; exact hi.2 p _ hp) r,
+            fun s h => by simp at h⟩
+        | err x =>
+          dsimp only
+          have h1 : (bind m.store o b e).2 = .err x := by rw [hb]
+          have h2 := bind_error_no_change h1
+          rw [hb] at h2
+          simp only at h2
+          subst h2
+          exact ⟨hi, fun s h => by simp at h⟩
+        | panic x => exact absurd (by rw [hb]) (hnp x)
+  | set r k v =>
+    simp only [step]
+    cases hr : m.reg r with
+    | none => exact ⟨hi, fun s h => by injection h with h; exact .inr h.symm⟩
+    | some id =>
+      have := set_store hi.1 (hi.2 r id hr) k v
+      dsimp only
+      exact ⟨inv_same hi this.1 this.2.1, fun s h => by simp [this.2.2, obsOfV] at h⟩
+  | get r k =>
+    simp only [step]
+    cases hr : m.reg r with
+    | none => exact ⟨hi, fun s h => by injection h with h; exact .inr h.symm⟩
+    | some id =>
+      dsimp only
+      refine ⟨hi, fun s h => ?_⟩
+      rcases get_total hi.1 (hi.2 r id hr) k with ⟨v, hv⟩ | hv <;> simp [hv, obsOfV] at h
+  | find r k =>
+    simp only [step]
+    cases hr : m.reg r with
+    | none => exact ⟨hi, fun s h => by injection h with h; exact .inr h.symm⟩
+    | some id =>
+      obtain ⟨res, hres⟩ := find_ok hi.1 (hi.2 r id hr) k
+      dsimp only
+      rw [hres]
+      cases res <;> exact ⟨hi, fun s h => by simp at h⟩
+  | remove r k =>
+    simp only [step]
+    cases hr : m.reg r with
+    | none => exact ⟨hi, fun s h => by injection h with h; exact .inr h.symm⟩
+    | some id =>
+      dsimp only
+      have := remove_store hi.1 (hi.2 r id hr) k
+      cases hrm : remove m.store id k with
+      | mk st' res =>
+        rw [hrm] at this
+        cases res with
+        | ok _ => dsimp only; exact ⟨inv_same hi this.1 this.2.1, fun s h => by simp at h⟩
+        | err x => dsimp only; exact ⟨inv_same hi this.1 this.2.1, fun s h => by simp at h⟩
+        | panic x => exact absurd rfl (this.2.2 x)
+  | update r k md =>
+    simp only [step]
+    cases hr : m.reg r with
+    | none => exact ⟨hi, fun s h => by injection h with h; exact .inr h.symm⟩
+    | some id =>
+      have := update_store hi.1 (hi.2 r id hr) k (cbFun md)
+      dsimp only
+      refine ⟨inv_same hi this.1 this.2.1, fun s h => ?_⟩
+      cases hres : (update m.store id k (cbFun md)).2 with
+      | ok v => simp [hres, obsOfV] at h
+      | err x => simp [hres, obsOfV] at h
+      | panic x => exact absurd hres (this.2.2 x)
+  | syms r pre =>
+    simp only [step]
+    cases hr : m.reg r with
+    | none => exact ⟨hi, fun s h => by injection h with h; exact .inr h.symm⟩
+    | some id =>
+      obtain ⟨l, hl⟩ := symbolsF_ok hi.1 pre (id + 1) id [] (hi.2 r id hr) (Nat.lt_succ_self _)
+      dsimp only
+      simp only [symbols, hl]
+      exact ⟨hi, fun s h => by simp at h⟩
+
+theorem run_inv_and_panics : ∀ (ops : List Op) (m : Machine), Inv m →
+    Inv (run m ops).1 ∧ ∀ ob ∈ (run m ops).2, ∀ s, ob = .panic s → nilHandle s := by
+  intro ops
+  induction ops with
+  | nil => intro m hi; exact ⟨hi, fun ob h => by simp [run] at h⟩
+  | cons o r ih =>
+    intro m hi
+    have h1 := step_inv_and_panics hi o
+    have h2 := ih (step m o).1 h1.1
+    refine ⟨h2.1, fun ob hob s hs => ?_⟩
+    simp only [run, List.mem_cons] at hob
+    rcases hob with e | hob
+    · exact h1.2 s (e ▸ hs)
+    · exact h2.2 ob hob s hs
+
+/-- C04 for the package used sequentially: starting from nothing, whatever sequence of API calls is made
+    (any binds / exprs values, any keys, any callbacks of `cbFun`), no call panics unless it was handed a nil
+    environment -/
+theorem api_never_panics (ops : List Op) :
+    ∀ ob ∈ (run {} ops).2, ∀ s, ob = .panic s → nilHandle s :=
+  (run_inv_and_panics ops {} inv_init).2
+
+/-! ### non-vacuity (concrete instances, by `decide`) -/
+
+section Examples
+
+/-- global `a = 1`, a child of it, a grandchild -/
+private def st0 : Store := [⟨[("a", .int 1)], none⟩, ⟨[], some 0⟩, ⟨[("b", .int 7)], some 1⟩]
+
+example : get st0 2 "a" = .ok (.int 1) := by decide
+example : find st0 2 "a" = .ok (some 0) := by decide
+example : get st0 2 "zz" = .err (.notFound "zz") := by decide
+example : chain st0 2 = [2, 1, 0] := by decide
+-- shadowing: the child's own binding wins, the parent keeps its own
+example : get (set st0 1 "a" (.int 2)).1 2 "a" = .ok (.int 2) := by decide
+example : get (set st0 1 "a" (.int 2)).1 0 "a" = .ok (.int 1) := by decide
+example : find (set st0 1 "a" (.int 2)).1 2 "a" = .ok (some 1) := by decide
+-- `Remove` does not climb: `a` is visible from scope 1 but not removable there
+example : get st0 1 "a" = .ok (.int 1) ∧ remove st0 1 "a" = (st0, .err (.notFound "a")) := by decide
+-- `Update` reads through the chain and writes into the scope itself: the global is NOT incremented
+example : (update st0 2 "a" (cbFun .inc)).2 = .ok (.int 2)
+    ∧ get (update st0 2 "a" (cbFun .inc)).1 2 "a" = .ok (.int 2)
+    ∧ get (update st0 2 "a" (cbFun .inc)).1 0 "a" = .ok (.int 1) := by decide
+-- a missing key reaches the callback as nil; a failing callback writes nothing
+example : (update st0 2 "q" (cbFun .wrap)).2 = .ok (.list [.nil]) := by decide
+example : update st0 2 "a" (cbFun .fail) = (st0, .err (.cb "fail")) := by decide
+-- `Symbols`: per scope sorted, innermost first, a shadowed name once per holder
+example : symbols (set st0 2 "a" (.int 0)).1 2 [] "" = .ok ["a", "b", "a"] := by decide
+example : symbols [⟨[("abc", .nil), ("ab", .nil), ("x", .nil)], none⟩] 0 [] "a" = .ok ["b", "bc"] := by decide
+
+-- the binder
+example : bind st0 0 (.list [.sym "x", .sym "y"]) (.vec [.int 1, .int 2])
+    = (st0 ++ [⟨[("y", .int 2), ("x", .int 1)], some 0⟩], .ok 3) := by decide
+example : (bind st0 0 (.list [.sym "x", .sym "y"]) (.list [.int 1])).2 = .err (.tooFew 2 1) := by decide
+example : (bind st0 0 (.list [.sym "x"]) (.list [.int 1, .int 2])).2 = .err (.tooMany 1 2) := by decide
+example : (bind st0 0 (.list [.sym "x", .sym "&", .sym "r"]) (.list [.int 1])).1
+    = st0 ++ [⟨[("r", .list []), ("x", .int 1)], some 0⟩] := by decide
+example : (bind st0 0 (.list [.sym "x", .sym "&", .sym "r"]) (.list [.int 1, .int 2, .int 3])).1
+    = st0 ++ [⟨[("r", .list [.int 2, .int 3]), ("x", .int 1)], some 0⟩] := by decide
+example : (bind st0 0 (.list [.sym "x", .sym "&", .sym "r"]) (.list [])).2 = .err (.tooFew 3 0) := by decide
+example : (bind st0 0 (.list [.sym "x", .sym "&"]) (.list [.int 1])).2 = .err .danglingAmp := by decide
+example : (bind st0 0 (.list [.sym "&", .int 3]) (.list [])).2 = .err .danglingAmp := by decide
+example : (bind st0 0 (.list [.int 5, .sym "x"]) (.list [])).2 = .err (.notSym "int") := by decide
+-- the name check of position i comes before its arity check, the arity check of position i before the name check of i+1
+example : (bind st0 0 (.list [.sym "x", .nil]) (.list [])).2 = .err (.tooFew 2 0) := by decide
+example : (bind st0 0 (.list [.sym "x", .nil]) (.list [.int 1])).2 = .err (.notSym "<nil>") := by decide
+example : (bind st0 0 (.int 5) (.list [])).2 = .err .nonSeq ∧ (bind st0 0 (.list []) (.str "s")).2 = .err .nonSeq := by
+  decide
+-- `bind_nil_skips_checks`: two parameters, NO argument list at all — no arity error, nothing bound
+example : bind st0 0 (.list [.sym "x", .sym "y"]) .nil = (st0 ++ [⟨[], some 0⟩], .ok 3) := by decide
+example : bind st0 0 .nil (.int 5) = (st0 ++ [⟨[], some 0⟩], .ok 3) := by decide
+example : bind st0 0 (.int 5) .nil = (st0 ++ [⟨[], some 0⟩], .ok 3) := by decide
+-- a repeated name: the later argument wins
+example : get (bind st0 0 (.list [.sym "x", .sym "x"]) (.list [.int 1, .int 2])).1 3 "x" = .ok (.int 2) := by decide
+
+-- the register machine: a nil handle is the only way to a panic
+example : (run {} [.new 0, .sub 1 2, .get 3 "a", .bind 1 0 (.list [.sym "a"]) (.list [.int 4]), .get 1 "a"]).2
+    = [.env 0, .panic "outer.(*Env) on a nil interface", .panic "method call on a nil interface", .env 1,
+       .val (.int 4)] := by decide
+
+end Examples
 
 end LispModel.EnvAlg
